@@ -1,8 +1,8 @@
 package mcrt
 
 import (
-	"reflect"
 	"fmt"
+	"reflect"
 	"runtime"
 	"strings"
 	"unsafe"
@@ -267,6 +267,16 @@ func AccessWrite(key any, what string) {
 // for the race detector - more ordering than the memory model gives (a race between plain accesses that happens to
 // be separated by unrelated atomic operations goes unreported), but never a false report for data published through
 // an atomic flag.
+// hbFence is the ordering part of AtomicFence without the scheduling point (see sync.Map / sync.Pool in sync.go).
+func hbFence() {
+	s := sched()
+	if s == nil || s.races == nil {
+		return
+	}
+	s.running.acquire(&s.atomicVC)
+	s.running.release(&s.atomicVC)
+}
+
 func AtomicFence() {
 	s := sched()
 	if s == nil {
